@@ -77,6 +77,13 @@ OPT_DIMS["header"].append(["Authorization: Basic dXNlcjpwYXNz", "X-Api-Key: s3cr
 OPT_DIMS["header"].append(["X-Forwarded-For: 10.0.0.1", "X-Forwarded-For: 10.0.0.2", "x-forwarded-for: 10.0.0.3"])   # a repeated field stays repeated
 OPT_DIMS["header"].append({"X-Token": "1", "x-token": "2"})
 OPT_DIMS["cookie"].append("session=abc123; token=xyz")
+OPT_DIMS["cookie"].append("name=J\u00fcrgen; lang=d\u00e9")          # characters beyond ASCII go out as UTF-8, whatever the transport accepts per write
+OPT_DIMS["header"].append(["X-Name: Zo\u00eb \u2603", "X-Plain: p"])
+
+
+def wire_view(x):
+    """how a str option value reads in the (latin-1 decoded) bytes of the request"""
+    return x.encode("utf-8").decode("latin-1") if isinstance(x, str) else x
 
 
 def scenarios(rng, tier):
@@ -174,13 +181,14 @@ def _run_reps(idx, target, opts, draws, kw, url, factory, peers, events):
             hl = ["%s: %s" % (k, v) for k, v in hdr.items() if v is not None]
         else:
             hl = list(hdr or [])
+        hl = [wire_view(x) for x in hl]
         sa = server_accepts(raw)
         overrides = bool(opts.get("connection"))
         events.append({
             "t": {"scheme": scheme, "host": hostplain, "v6": v6, "port": port, "path": path, "query": query},
             "o": {"host": opts.get("host") or "", "origin": opts.get("origin") or "",
                   "suppressOrigin": bool(opts.get("suppress_origin")), "subprotocols": opts.get("subprotocols") or [],
-                  "cookie": opts.get("cookie") or "", "headerLines": hl, "connection": opts.get("connection") or "",
+                  "cookie": wire_view(opts.get("cookie") or ""), "headerLines": hl, "connection": opts.get("connection") or "",
                   "jarCookie": "j=1" if opts.get("jar") else ""},
             "line": line, "headers": headers, "key": key, "keyFresh": key_ok, "syntaxOk": ok, "writes": len(sends),
             "serverChecked": sa is not None and not overrides, "serverAccepts": bool(sa), "url": url, "idx": idx, "rep": rep,
